@@ -21,6 +21,7 @@ RULE = (
     'states, labels, cut-off, resolution).'
 )
 RULE += ' Added in rounds 5-10: per-atom species variants of one symbol; recurring cut-offs with results scribbled on after use; label vocabularies whose natural and string order differ; skewed cells with cut-offs between half the perpendicular width and half the shortest edge; one system with 1.8e7 pair distances (additivity over frame ranges + brute force on single frames).'
+RULE += ' Round 15: a fifth of the systems with one distinct, sorted label per site; the previous / next site views read by the per-state RDF are retained and must not change.'
 RULE += ' Round 14: the second species of the pair RDF also as a collection naming it repeatedly.'
 RULE += ' Round 12: for a third of the systems framework atoms are placed 1.5e-9..4.5e-9 A beyond a bin edge from a diffusing atom; the bin-edge ambiguity band is 1e-9 A.'
 ASSUMPTIONS = [
@@ -89,6 +90,12 @@ def setup(ctx):
     _mon.attach(rdf, 'radial_distribution', label='rdf.radial_distribution', retain=_rt.rdf_dict, scribble=True)
     _mon.attach(rdf, 'radial_distribution_between_species', label='rdf.radial_distribution_between_species', retain=_rt.rdf_one, scribble=True)
     _mon.attach(rdf, '_uniqify_labels', optional=True, label='rdf._uniqify_labels')
+    # the site views the per-state RDF reads from the Transitions object are that object's (cached) results: the
+    # analysis leaves them as they were returned
+    import gemdat.transitions as gt_
+
+    _mon.attach(gt_.Transitions, 'states_prev', label='Transitions.states_prev (read by the RDF)', retain=_rt.auto)
+    _mon.attach(gt_.Transitions, 'states_next', label='Transitions.states_next (read by the RDF)', retain=_rt.auto)
     # silence the progress bar
     try:
         rdf.track = lambda it, **kw: it
@@ -139,7 +146,7 @@ def run_unit(unit, rng, ctx):
         return run_bigpair(unit, rng, ctx)
 
     skewed = unit['i'] % 4 == 1
-    sys_ = gen.make_site_system(rng, kind=(str(rng.choice(['triclinic_strong', 'rhombohedral', 'hexagonal', 'monoclinic'])) if skewed else None), T=int(rng.integers(6, 40)), n_sites=int(rng.integers(2, 7)), n_atoms=int(rng.integers(1, 4)), margin=0.04, p_move=float(rng.choice([0.2, 0.4, 0.6])), n_framework=int(rng.integers(2, 6)), n_labels=int(rng.integers(1, 4)), lo=5.0, hi=9.0)
+    sys_ = gen.make_site_system(rng, kind=(str(rng.choice(['triclinic_strong', 'rhombohedral', 'hexagonal', 'monoclinic'])) if skewed else None), T=int(rng.integers(6, 40)), n_sites=int(rng.integers(2, 7)), n_atoms=int(rng.integers(1, 4)), margin=0.04, p_move=float(rng.choice([0.2, 0.4, 0.6])), n_framework=int(rng.integers(2, 6)), n_labels=int(rng.integers(1, 4)), lo=5.0, hi=9.0, distinct_labels=(unit['i'] % 5 == 3))
     m = sys_.matrix
     names = sys_.species_names
     T, N, _ = sys_.coords.shape
